@@ -1,6 +1,6 @@
 """C01 — legal move generation: structural clauses C01-EP, C01-KING, C01-CASTLE, C01-FLAGS, C01-CHECK
 (DESIGN.md §3)."""
-from facts import (decision_paths, norm, show, walk, strip_refs, deep_strip, is_call_to, callee_name, find_calls, guard_conditions,
+from facts import (short, decision_paths, norm, show, walk, strip_refs, deep_strip, is_call_to, callee_name, find_calls, guard_conditions,
                    option_guard, mentions_call)
 
 EXPLANATION = (
@@ -37,6 +37,45 @@ def run(fx, rep, tier):
     rule_attackers(fx, rep)
     rule_pins(fx, rep)
     rule_pinray(fx, rep)
+    rule_capacity(fx, rep)
+
+
+MAX_LEGAL_MOVES_OF_CHESS = 218  # R6R/3Q4/1Q4Q1/4Q3/2Q4Q/Q4Q2/pp1Q4/kBNN1KB1 w - - 0 1 (Petrovic 1964); no legal position has more
+
+
+def rule_capacity(fx, rep):
+    """The list the generator fills must be able to hold every legal move of every legal position. When it is a
+    fixed-capacity vector, its capacity (read from the resolved type of the generator's own parameters and locals) must be
+    at least 218, the largest number of legal moves of any legal position; otherwise generation panics (checked push) in
+    positions no perft root of the suite comes near."""
+    import re
+    caps = []
+    growable = 0
+    for b in fx.fn_bodies():
+        nm = norm(b.name)
+        if not nm.startswith("chess::movegen::gen::") or "::tests::" in nm:
+            continue
+        for l in range(1, b.arg_count + 1):
+            ty = b.local_ty(l) or ""
+            m = re.search(r"ArrayVec<chess::moves::Move, (\d+)>", ty)
+            if m:
+                caps.append((int(m.group(1)), b))
+            elif re.search(r"Vec<chess::moves::Move", ty):
+                growable += 1
+    if not caps and not growable:
+        rep.notes.append("C01-CAPACITY: the generator's output list is neither an ArrayVec<Move, N> nor a Vec<Move>; clause not decided")
+        rep.rule("C01-CAPACITY", 0, 0, True, "move list type not recognised: not decided")
+        return
+    ok = True
+    for (n, b) in caps:
+        good = n >= MAX_LEGAL_MOVES_OF_CHESS
+        rep.obligation(good)
+        if not good and ok:
+            ok = False
+            rep.violation("C01-CAPACITY", "C01-CAPACITY/movelist", f"the generator fills an ArrayVec<Move, {n}>: legal positions have up to {MAX_LEGAL_MOVES_OF_CHESS} legal moves, so generation panics (or, with an unchecked push, writes out of bounds) instead of listing them all",
+                          {"fn": b.name, "file": b.file, "line": b.line})
+    rep.sample({"rule": "C01-CAPACITY", "capacities": sorted({n for n, _ in caps}), "growable_lists": growable})
+    rep.rule("C01-CAPACITY", len(caps) + growable, 6, ok, "move list capacity >= 218 (maximum number of legal moves)")
 
 
 def rule_pinray(fx, rep):
@@ -198,6 +237,7 @@ def rule_attackers(fx, rep):
     bodies = [ga] + [fx.body(callee_name(t)) for bb, t in ga.calls() if callee_name(t) and fx.body(callee_name(t)) is not None and
                      norm(fx.body(callee_name(t)).name).startswith("chess::movegen::attackers::")]
     pairs = 0
+    term_blocks = {}
     for b in bodies:
         for bb, t in b.calls():
             cn = norm(callee_name(t) or "")
@@ -216,6 +256,7 @@ def rule_attackers(fx, rep):
                         continue
                     pairs += 1
                     got[tname] |= ks
+                    term_blocks.setdefault(tname, []).append((b, bb))
                     if b is ga:
                         # pattern taken from the probed square; pieces of the opponent of the probed player
                         sq_ok = deep_strip(tab[2][0])[:2] == ("arg", 3)
@@ -242,8 +283,28 @@ def rule_attackers(fx, rep):
     if not good:
         ok = False
         rep.violation("C01-ATTACKERS", "C01-ATTACKERS/args", f"attack patterns are not taken from the probed square against the probed player's opponent: {bad_args[:3]}", {"fn": ga.name, "file": ga.file, "line": ga.line})
+    # the union is complete on every path: no return of the function can be reached without passing every term
+    # (generate_captures counts the set to tell single from double check, so "some attacker" is not enough)
+    n_union = 0
+    for b in {id(x): x for x in bodies}.values():
+        live = b.live_blocks()
+        loops = any(i in b.reachable(j) for i in live for j in b.succ(i))
+        rets = [r for r in b.return_blocks() if r in live]
+        for tname, lst in term_blocks.items():
+            blocks = [bb for (bx, bb) in lst if bx is b]
+            if not blocks or loops:
+                continue
+            n_union += 1
+            good = b.must_pass(0, blocks, rets)
+            rep.obligation(good)
+            if not good:
+                ok = False
+                rep.violation("C01-ATTACKERS", f"C01-ATTACKERS/partial/{tname}", f"`{short(b.name)}` can return without having added the `{tname}` term: the set it returns is then not the full attacker set, and generate_captures / generate_quiets count it to tell a single check (blocks and captures of the checker allowed) from a double check (king moves only)",
+                              {"fn": b.name, "file": b.file, "line": b.line})
+    if ok and n_union < len(need):
+        rep.notes.append("C01-ATTACKERS: completeness of the union on every path decided for %d of %d terms only (loops in the attacker function)" % (n_union, len(need)))
     # every probe of the generator goes through this function (or Board::king_in_check, which calls it)
-    rep.rule("C01-ATTACKERS", len(need) + 1, 6, ok, "attacker set = union over all piece kinds of pattern & opponent's pieces")
+    rep.rule("C01-ATTACKERS", len(need) + 1 + n_union, 6, ok, "attacker set = union over all piece kinds of pattern & opponent's pieces, complete on every return path")
 
 
 # ---- shared: probes ------------------------------------------------------------------------
@@ -1153,6 +1214,10 @@ MUTANTS = [
      "edits": [(GEN, "        let destinations = tables::knight_attacks(knight) & check_mask;\n\n        let capture_destinations = destinations & their_pieces;", "        let destinations = tables::knight_attacks(knight);\n        let _ = check_mask;\n\n        let capture_destinations = destinations & their_pieces;")]},
     {"name": "enemy king no longer counted as an attacker (seed C01-2)", "expect": "C01-ATTACKERS/king_attacks",
      "edits": [("src/chess/movegen/attackers.rs", "    attackers |= tables::king_attacks(square) & board.king(them);\n\n    attackers\n}\n\npub fn all_attackers_of", "    attackers\n}\n\npub fn all_attackers_of")]},
+    {"name": "attacker set cut short once a pawn attacker is found (seed C01-5b)", "expect": "C01-ATTACKERS/partial",
+     "edits": [("src/chess/movegen/attackers.rs", "    // Knights: A square is attacked by any squares a knight could reach if it were on that square\n    attackers |=", "    if attackers.any() {\n        return attackers;\n    }\n    attackers |=")]},
+    {"name": "move list capacity below the 218-move maximum (seed C01-5a)", "expect": "C01-CAPACITY",
+     "edits": [("src/chess/moves.rs", "const MAX_LEGAL_MOVES: usize = 218;", "const MAX_LEGAL_MOVES: usize = 200;")]},
     {"name": "diagonal attackers exclude queens", "expect": "C01-ATTACKERS/bishop_attacks",
      "edits": [("src/chess/movegen/attackers.rs", "    attackers |= tables::bishop_attacks(square, all_pieces) & board.diagonal_sliders(them);", "    attackers |= tables::bishop_attacks(square, all_pieces) & board.bishops(them);")]},
     {"name": "pawn attack pattern of the wrong colour", "expect": "C01-ATTACKERS/args",
